@@ -68,9 +68,31 @@ def c20_fails(batch):
             except ValueError:
                 ptxt = str(case["panic"])
             f.append((max(0, len(case["blocks"]) - 1), "C20:gateway-crash", ptxt))
+        if case is not None:
+            f += holds_released(case)
         if f:
             out[hid] = sorted(f)
     return out
+
+
+def holds_released(case):
+    """"release its holds once", on the real trace: once every session that was created has received its ConnEnd, the lock
+    server lists no hold (REST sessions are the only clients of these runs; not under no-clear-on-disconnect)."""
+    if not case.get("cfg") or case["cfg"][0] != "0":
+        return []
+    created, ended, out = set(), set(), []
+    for bi, blk in enumerate(case["blocks"]):
+        e = blk["e"]
+        if e[0] == "create" and len(e) >= 3:
+            created.add(e[2])
+        for o in blk["o"]:
+            if o and o[0] == "end":
+                ended.add(o[1])
+        if e[0] == "probe" and created and created <= ended:
+            for o in blk["o"]:
+                if o and o[0] == "listing" and o[1] != "0":
+                    out.append((bi, "C20:holds-survive-session-end", "every session has ended but %s lock(s) are still held" % o[1]))
+    return out[:3]
 
 
 def run_c20_batch(ctx, b, histories=None, profile=None, n=0, seed=0, tag="gen"):
@@ -89,6 +111,8 @@ def run_c20_batch(ctx, b, histories=None, profile=None, n=0, seed=0, tag="gen"):
 def race_oracle(r):
     """The schedule-independent part of C20 on one executed race. -> list of (rule, text)"""
     bad = []
+    if r.get("skipped"):
+        return bad
     if r.get("setup_fail"):
         bad.append(("setup", "the scenario could not be set up: %s" % r["setup_fail"]))
         return bad
@@ -267,6 +291,9 @@ def run(ctx):
     race_kinds = set()
     for run_ in rruns:
         for r in run_["results"]:
+            if r.get("skipped"):
+                race_rules["skipped"] = race_rules.get("skipped", 0) + 1
+                continue
             n_races += 1
             sc = run_["scenarios"].get(r.get("id")) or {}
             race_kinds.add(json.dumps([[s.get("op"), s.get("act"), s.get("s"), s.get("gate"), s.get("pm"), s.get("ns")] for s in sc.get("steps", [])]) + r.get("clock", ""))
